@@ -90,9 +90,37 @@ def collect_corpus(langs, thorough, max_bytes):
 def handwritten(langs):
     out = {l: [] for l in langs}
     for l in langs:
-        for name, text in c03_programs.PROGRAMS.get(l, []):
+        for name, text in c03_programs.PROGRAMS.get(l, []) + c03_programs.FEATURES.get(l, []):
             out[l].append(Src(l, name, text.encode("utf-8"), "handwritten", f"c03_programs:{name}"))
     return out
+
+
+BLOCK_COMMENT_LANGS = ("javascript", "typescript", "java", "go", "c", "php")
+
+
+def empty_lowering(langs):
+    """Files that parse but lower to zero GIR statements (lib/c03_programs.EMPTY_LOWERING)."""
+    out = {l: [] for l in langs}
+    for l in langs:
+        for name, text in c03_programs.EMPTY_LOWERING.get(l, []):
+            out[l].append(Src(l, name, text.encode("utf-8"), "empty-lowering", f"c03_programs:{name}"))
+    return out
+
+
+def truncated_header(rng, lang, base):
+    """An ordinary source with a licence header in front, cut somewhere inside that header."""
+    lic = c03_programs._LICENCE
+    if lang in BLOCK_COMMENT_LANGS:
+        head = ("<?php\n" if lang == "php" else "") + c03_programs._block_comment(lic)
+        lo = head.index("/*") + 3
+        cut = rng.randrange(lo, len(head) - 3)               # inside the (then unterminated) block comment
+    else:
+        prefix = ";" if lang == "llvm" else "#"
+        head = c03_programs._line_comment(prefix, lic)
+        cut = rng.randrange(2, len(head))
+    data = (head.encode("utf-8") + base.data)[:cut]
+    ext = os.path.splitext(base.name)[1]
+    return Src(lang, "truncated_header" + ext, data, "empty-lowering", f"licence header + {base.origin}, cut at {cut}")
 
 
 def safe_name(i, src):
@@ -105,6 +133,7 @@ def build_batches(chk, langs, rng):
     thorough = chk.tier == "thorough"
     corpus = collect_corpus(langs, thorough, 120_000 if not thorough else 400_000)
     hand = handwritten(langs)
+    empties = empty_lowering(langs)
     n_mut_total = 2600 if not thorough else 38_000
     batch_size = 70 if not thorough else 110
     # originals
@@ -128,6 +157,17 @@ def build_batches(chk, langs, rng):
 
     def add_batch(langs_, srcs, mock=True, quiet=True, nested=False, tag=""):
         files = []
+        srcs = list(srcs)
+        if tag != "single-file":
+            # a few files without a single statement next to the ordinary ones, in every project
+            k = len(batches)
+            for l in langs_:
+                pool = empties.get(l, [])
+                if pool:
+                    srcs.insert(rng.randrange(0, len(srcs) + 1), pool[k % len(pool)])
+                    srcs.insert(rng.randrange(0, len(srcs) + 1), pool[(k + 1) % len(pool)])
+                if originals.get(l):
+                    srcs.insert(rng.randrange(0, len(srcs) + 1), truncated_header(rng, l, rng.choice(originals[l])))
         for i, s in enumerate(srcs):
             nm = safe_name(i, s)
             if nested:
@@ -159,7 +199,7 @@ def build_batches(chk, langs, rng):
     n_single = 12 if not thorough else 120
     for j in range(n_single):
         l = rng.choice(langs)
-        pool = originals[l] + mutants[l]
+        pool = empties[l] if (j % 6 == 5 and empties[l]) else originals[l] + mutants[l]
         if pool:
             add_batch([l], [rng.choice(pool)], mock=(j % 2 == 0), quiet=True, tag="single-file")
     if thorough:
@@ -247,11 +287,25 @@ def run_batch(job):
     ws = os.path.join(sc, "ws")
     extra = (["-q"] if job.get("quiet", True) else []) + ([] if job.get("mock", True) else ["--nomock"])
     argv = lianrun.lian_argv("lang", ",".join(job["langs"]), [proj], ws, st, extra)
+    if job.get("abort_probe"):
+        # unwrapped, unmonitored: does the lang phase end normally on this project, and is the GIR of the other
+        # file(s) written?
+        code = "normal end"
+        try:
+            lianrun.run_lian(argv)
+        except SystemExit as e:
+            code = f"SystemExit({e.code!r})"
+        bundle = False
+        try:
+            bundle = lianrun.read_bundles(lianrun.ws_dir(ws), "frontend", "gir") is not None
+        except Exception:
+            bundle = True
+        return {"probe": code, "bundle_written": bundle}
     if not job.get("monitor", True):
         lianrun.run_lian(argv)                 # unwrapped, unmonitored: only the child's fate matters
         return {"unmonitored": True}
     rec = gw.install(gw.Recorder(), contain=job.get("contain", True), repo=common.REPO,
-                     keep_rows=(len(files) == 1))
+                     keep_rows=(len(files) <= 150))
     lianrun.run_lian(argv)
     w = lianrun.ws_dir(ws)
     read_error = None
@@ -259,6 +313,7 @@ def run_batch(job):
         df = lianrun.read_bundles(w, "frontend", "gir")
     except Exception as e:          # lian swallowed a failed feather write and left a truncated file behind
         df, read_error = None, f"{type(e).__name__}: {e}"[:300]
+        read_error_type = type(e).__name__
     ms = lianrun.read_feather(w, "frontend", "module_symbols")
     unit_lang, unit_rel = {}, {}
     if ms is not None:
@@ -276,7 +331,7 @@ def run_batch(job):
         u = rec.units[uid]
         rel = unit_rel.get(uid) or relpath_of(u.path)
         out["units"].append((rel, u.lang, u.status, u.nrows, u.sig_exc, u.sig_fn, u.where, u.message,
-                             bool(u.has_error)))
+                             bool(u.has_error), u.n_statements, u.contained))
         if u.status == "gir":
             lowered += 1
         if u.status == "crash":
@@ -305,6 +360,20 @@ def run_batch(job):
             out["bundle_hash"] = bundle_hash(df)
     elif lowered:
         out["bundle"] = "unreadable" if read_error else "missing-although-units-were-lowered"
+        if job.get("want_hash") and read_error:
+            out["bundle_hash"] = f"unreadable: {read_error_type}"      # same spelling as run_cli
+        if len(files) > 1 and out["save_errors"]:
+            # scheduling hint only (nothing is judged from it): which units put which kind of value into the column
+            # lian's feather export choked on, so that the parent can separate them in one step instead of bisecting
+            m = re.search(r"column (\w+)", out["save_errors"][0])
+            if m:
+                col, kinds = m.group(1), {}
+                for uid in rec.order:
+                    u = rec.units[uid]
+                    ts = {type(r.get(col)).__name__ for r in (u.rows or []) if r.get(col) is not None}
+                    if ts:
+                        kinds[unit_rel.get(uid) or relpath_of(u.path)] = "+".join(sorted(ts))
+                out["column_kinds"] = kinds
         if len(files) == 1:
             # attribution only: the bundle of this single file is unreadable, so look at the rows lian handed to
             # its loader (add_unit_gir has stamped unit_id on them) to name the construct behind the write failure
@@ -368,6 +437,15 @@ class Driver:
         self.thorough = chk.tier == "thorough"
         self.timeout = 120.0 if not self.thorough else 900.0
         self.crashes = {}       # sig -> {"n":, "witnesses": [(size, job, rel, src)], "tb":, "where", "message"}
+        self.aborts = {}        # lang-phase-aborted:* -> same shape (SystemExit raised while one file is lowered)
+        self.contained = {}     # contained:<lang>:<Exc>@<fn> -> count (evidence only)
+        self.hand_without_gir = []
+        self.sibling = {}       # lang -> a small hand-written program that lowers fine
+        for l in LANG_EXT:
+            small = [x for x in c03_programs.PROGRAMS.get(l, []) if "small" in x[0].lower()]
+            if small:
+                self.sibling[l] = Src(l, small[0][0], small[0][1].encode("utf-8"), "handwritten",
+                                      "c03_programs:" + small[0][0])
         self.struct = {}        # sig -> {"n":, "witnesses": [(job, v)]}
         self.ops = {}
         self.body_cols = set()
@@ -391,12 +469,13 @@ class Driver:
                     # lian lowered units but left no readable bundle (a swallowed feather write failure):
                     # nothing of this project can be judged as a whole; narrow down to the file(s) behind it
                     chk.count("projects whose units were lowered but whose gir bundle is missing/unreadable")
+                    chk.count(f"unreadable-bundle projects [{'+'.join(job['langs'])}]")
                     for m in r.value["save_errors"][:1]:
                         col = re.search(r"column (\w+)", m)
                         chk.count(f"swallowed gir bundle write failures on column "
                                   f"'{col.group(1) if col else '?'}'")
                     if len(job["files"]) > 1:
-                        self.split(job, nxt)
+                        self.split(job, nxt, r.value.get("column_kinds"))
                     else:
                         self.single_file_unwritable(job, r.value)
                     continue
@@ -413,10 +492,21 @@ class Driver:
             chk.note_inconclusive(f"{len(queue)} sub-batches still pending after 12 bisection rounds")
 
     @staticmethod
-    def split(job, nxt):
+    def split(job, nxt, column_kinds=None):
         files = job["files"]
         langs = sorted({s.lang for _, s in files if isinstance(s, Src)})
-        if len(langs) > 1:
+        parts = None
+        if column_kinds:
+            # units that store a string in the offending column / units that store something else / the rest
+            a = [f for f in files if "str" in column_kinds.get(f[0], "")]
+            b = [f for f in files if "str" not in column_kinds.get(f[0], "")]
+            if a and b:
+                mixed = [f for f in a if column_kinds.get(f[0]) != "str"]
+                pure = [f for f in a if column_kinds.get(f[0]) == "str"]
+                parts = [pure, b] + [[f] for f in mixed]
+        if parts is not None:
+            pass
+        elif len(langs) > 1:
             parts = [[f for f in files if isinstance(f[1], Src) and f[1].lang == l] for l in langs]
             parts.append([f for f in files if not isinstance(f[1], Src)])
         else:
@@ -426,8 +516,9 @@ class Driver:
             if part:
                 j = dict(job)
                 j["files"] = part
-                if len(langs) > 1:
-                    j["langs"] = [part[0][1].lang] if isinstance(part[0][1], Src) else job["langs"]
+                present = sorted({f[1].lang for f in part if isinstance(f[1], Src) and f[1].lang in LANG_EXT})
+                if len(langs) > 1 and present:
+                    j["langs"] = present
                 nxt.append(j)
 
     def single_file_unwritable(self, job, v):
@@ -474,8 +565,11 @@ class Driver:
             chk.count("files whose lowering exceeded the watchdog (not judged)")
             return
         if r.status == "exit":
-            chk.count("single-file projects ended by a deliberate SystemExit outside the per-file entry")
-            chk.count(f"handled exits: {lang}: (outside per-file entry)")
+            chk.count("single-file projects whose lang run ended by SystemExit outside the per-file entry")
+            sig = f"lang-phase-aborted:{lang}:(outside the per-file entry)"
+            ent = self.aborts.setdefault(sig, {"n": 0, "witnesses": [], "where": "?", "message": repr(r.value)})
+            ent["n"] += 1
+            ent["witnesses"].append((len(s.data if isinstance(s, Src) else s), job, rel, s))
             return
         if r.status == "lost":
             chk.note_inconclusive(f"child vanished without a result on {rel}: {r.log_text(300)}")
@@ -503,9 +597,22 @@ class Driver:
         chk.count("wrapper calls: GIRParser.deal_with_file_unit", v["hooks"][0])
         chk.count("wrapper calls: Parser.parse_gir", v["hooks"][1])
         chk.count("wrapper calls: GIRProcessing.flatten", v["hooks"][2])
-        for (rel, lang, status, nrows, exc, fn, where, message, has_err) in v["units"]:
+        emitting = sum(1 for u in v["units"] if u[2] == "gir" and not u[0].startswith("extern:"))
+        zero_here = 0
+        for (rel, lang, status, nrows, exc, fn, where, message, has_err, n_stmts, contained) in v["units"]:
             s = by_rel.get(rel)
             kind = s.kind if isinstance(s, Src) else ("extern" if rel.startswith("extern:") else "other")
+            if n_stmts == 0 and status == "nogir":
+                zero_here += 1
+                chk.count("files that parsed but lowered to zero statements (no GIR, project undisturbed)")
+                chk.count(f"files that lowered to zero statements [{lang}]")
+            if contained is not None:
+                chk.count("files whose translation failure lian itself contained (no GIR for that file, allowed)")
+                key = "contained" + gw.exception_signature(lang, contained[0], contained[1])[len("crash"):]
+                self.contained[key] = self.contained.get(key, 0) + 1
+                if kind == "handwritten" and len(self.hand_without_gir) < 40:
+                    self.hand_without_gir.append({"file": getattr(s, "origin", rel), "why": f"{key} ({contained[2]}: "
+                                                                                            f"{contained[3][:80]})"})
             self.total_files += 1
             chk.count(f"files[{lang}]")
             chk.count(f"files of kind {kind}")
@@ -525,7 +632,16 @@ class Driver:
                 if s is not None and len(ent["witnesses"]) < 40:
                     ent["witnesses"].append((len(s.data), job, rel, s))
             elif status == "quit":
-                chk.count(f"handled exits (SystemExit with diagnostic) inside the per-file entry: {lang}: {fn}")
+                # a SystemExit raised while ONE file is lowered ends the whole lang phase: no GIR for any file
+                chk.count("files on which the per-file entry raised SystemExit (candidate phase abort)")
+                sig = f"lang-phase-aborted:{lang}:{fn}"
+                ent = self.aborts.setdefault(sig, {"n": 0, "witnesses": [], "where": where, "message": message})
+                ent["n"] += 1
+                if s is not None and len(ent["witnesses"]) < 40:
+                    ent["witnesses"].append((len(s.data), job, rel, s))
+        if zero_here and emitting:
+            chk.count("projects in which statement-less files sat next to GIR-emitting files and the phase ended "
+                      "normally")
         for k, n in v["stats"].items():
             chk.count(k, n)
         for l, ops in v["ops"].items():
@@ -593,6 +709,43 @@ class Driver:
                 chk.fail(sig, desc, case)
         chk.count("distinct crash signatures confirmed by an unwrapped run", len(confirmed))
         self.confirmed = confirmed
+
+    # ---- phase 2a: SystemExit while one file is lowered: does it take the other files' GIR with it? ------
+    def confirm_aborts(self):
+        """Each distinct signature is re-observed on a two-file project {witness, a small program that lowers fine}
+        run unwrapped and unmonitored: the phase must end normally and write the sibling's GIR.  It is a violation
+        when the run ends by SystemExit (the per-file containment only catches Exception) — one file must never
+        take the other files' GIR with it."""
+        chk = self.chk
+        chk.count("distinct phase-abort signatures seen under the per-file wrapper", len(self.aborts))
+        jobs = []
+        for sig, ent in sorted(self.aborts.items()):
+            ent["witnesses"].sort(key=lambda w: (w[0], w[2]))
+            for (size, job, rel, s) in ent["witnesses"][:2]:
+                lang = s.lang if isinstance(s, Src) and s.lang in LANG_EXT else job["langs"][0]
+                sib = self.sibling.get(lang)
+                files = [(rel, s)] + ([("sibling_" + sib.name, sib)] if sib is not None else [])
+                jobs.append({"id": -3, "langs": [lang], "files": files, "mock": False, "quiet": True,
+                             "abort_probe": True, "sig": sig})
+        for r in forkpool.run_jobs(run_batch, jobs, timeout=self.timeout, tag="c03abort"):
+            chk.count("unwrapped phase-abort probes (witness + sibling project)")
+            j, sig = r.item, r.item["sig"]
+            if r.status != "ok":
+                chk.count(f"phase-abort probes that did not complete ({r.status})")
+                continue
+            v = r.value
+            if v["probe"] == "normal end":
+                chk.count("phase-abort candidates NOT reproduced by the unwrapped probe")
+                continue
+            ent = self.aborts[sig]
+            desc = (f"lowering one file ends the whole lang phase with {v['probe']} (raised in {ent['where']}: "
+                    f"{ent['message']}): the per-file containment does not apply and "
+                    + ("NO gir bundle is written for the other file of the project either"
+                       if not v["bundle_written"] else "the phase stops early")
+                    + f" [{ent['n']} file(s) with this signature in this run]")
+            case = make_case(j, j["files"], "abort")
+            chk.fail(sig, desc, case)
+            chk.count("phase-abort signatures confirmed by the unwrapped probe")
 
     # ---- phase 2b: the same crash witnesses through the true CLI in a fresh interpreter ------------------
     def cli_confirm(self, limit):
@@ -696,6 +849,7 @@ def replay(chk, path):
                               data, "replay", "replay")) for rel, data in files]
     d.run_all([job])
     d.confirm_crashes()
+    d.confirm_aborts()
     d.settle_structure()
     chk.nontrivial_case("replay")
     chk.nontrivial_case("replay-2")
@@ -724,6 +878,7 @@ def main():
     import time
     phases = {}
     for name, fn in (("run_all", lambda: d.run_all(batches)), ("confirm_crashes", d.confirm_crashes),
+                     ("confirm_aborts", d.confirm_aborts),
                      ("cli_confirm", lambda: d.cli_confirm(6 if chk.tier == "quick" else 40)),
                      ("settle_structure", d.settle_structure),
                      ("cli_crosscheck", lambda: d.cli_crosscheck(batches, 6 if chk.tier == "quick" else 24))):
@@ -738,6 +893,8 @@ def main():
     chk.extra["body_columns_derived_from_data"] = sorted(d.derived)
     chk.extra["crash_signatures_under_wrapper"] = {s: e["n"] for s, e in sorted(d.crashes.items())}
     chk.extra["units_lowered_but_absent_from_bundle"] = d.lost_units[:20]
+    chk.extra["translation_failures_contained_by_lian"] = dict(sorted(d.contained.items()))
+    chk.extra["handwritten_files_without_gir"] = d.hand_without_gir
     chk.count("distinct operations seen", chk.extra["distinct_operations_total"])
     chk.count("distinct (operation.attribute) body references seen", len(d.body_cols))
     for b in batches[:3]:
@@ -761,6 +918,12 @@ def main():
     chk.require("units with a %unit_init", 300 if not thorough else 9_000)
     chk.require("files of kind mutant that emitted GIR", 300 if not thorough else 12_000)
     chk.require("distinct operations seen", 60)
+    chk.require("files that parsed but lowered to zero statements (no GIR, project undisturbed)",
+                120 if not thorough else 1200)
+    chk.require("projects in which statement-less files sat next to GIR-emitting files and the phase ended normally",
+                40 if not thorough else 300)
+    for l in langs:
+        chk.require(f"files that lowered to zero statements [{l}]", 4 if not thorough else 30)
     if thorough:
         chk.require("projects whose GIR was exported in more than one bundle", 1)
     chk.require("true CLI bundle identical to the forked monitored run's bundle", 3 if not thorough else 12)
